@@ -404,3 +404,32 @@ fn o10_2_client_handshake_budget() { budget_step(false); }
 #[kani::proof]
 #[kani::unwind(5)]
 fn o9_4_client_disconnect_budget() { budget_step(true); }
+
+// ---- the real step(): frames waiting in the socket are read before the timers are evaluated (C10) -------
+
+//@h props=C10,C08 tier=quick timeout=900 role=client-real-step
+//@fn Client::{step, flush_if_active, handle_frames, handle_frame, handle_sync, handle_events, step_if_active}, Frame::read
+//@bound Active client (deadline any, config any valid); ONE sync frame (14 bytes, no ids) waiting in the socket; clock reading any < 2^40 -- in particular at or past the deadline; one call of the real step()
+//@assume clock behind now_ms() = a value set by the obligation; socket model with one queued datagram; opaque connection model; crc::compute stubbed
+#[kani::proof]
+#[kani::unwind(5)]
+#[kani::stub(crate::frame::serial::crc::compute, crate::frame::serial::verif_codec::crc_stub)]
+fn o10_4_client_step_reads_waiting_frames_before_timers() {
+    unsafe { crate::frame::serial::verif_codec::CRC_STUB_VALUE = 0; }
+    let cfg = any_cfg();
+    let deadline = any_time();
+    let mut c = mk_client(active(kani::any(), deadline, None), cfg.clone());
+    // a keepalive sync frame from the peer: type 11, mode 0, two unused id fields, CRC (stub value 0)
+    c.socket.queue_rx(&[11u8, 0, 0, 0, 0, 0, 0, 0, 0, 0, 0, 0, 0, 0], 10);
+    let now = any_time();
+    unsafe { env::CLOCK_MS = now; }
+    let events = c.step();
+    std::mem::forget(events);
+    assert!(oq::count(oq::SYNC) == 1, "the waiting frame reached the connection");
+    match c.state {
+        State::Active(ref st) => assert!(st.timeout_time_ms == now + cfg.active_timeout_ms, "[C10] a received frame restarts the timeout"),
+        _ => panic!("[C10] a connection whose peer's frame was waiting in the socket is reported as timed out (frames must be read before the deadline is checked)"),
+    }
+    kani::cover!(now >= deadline, "the deadline had passed when step() was called");
+    std::mem::forget(c);
+}
